@@ -464,7 +464,8 @@ impl<'p> Search<'p> {
 			if self.error.is_some() {
 				break;
 			}
-			if (self.cfg.stop_at_first && !self.found.is_empty()) || self.stats.cap_hit {
+			let verdict_found = self.found.iter().any(|f| self.cfg.verdict_props.is_empty() || self.cfg.verdict_props.iter().any(|p| p == f.violation.prop));
+			if (self.cfg.stop_at_first && verdict_found) || self.stats.cap_hit {
 				break;
 			}
 		}
